@@ -482,6 +482,8 @@ def run(prog, chk, tier):
     adapter.pad_rule(prog, chk, "C16")
     adapter.mac_definition_rules(prog, chk, "C16")
     stackrt.guarded(chk, "C16.modes-and-feeders", c16stream.run_all, prog, chk, "C16", tier)
+    # the structural CBC rules recognise one spelling of the initialisation; the mode scenarios run CBC with an explicit IV and with iv=None against SP 800-38A
+    chk.shape_fallback("cbc-init", ["mode-cbc-encrypt", "mode-cbc-decrypt"])
     chk.assume("table expansion in the lane domain is licensed by the table audit of the same run (single TABLE_SPEC)")
     chk.assume("mode / feeder scenarios treat the block function as an uninterpreted E_k / D_k; this is licensed by the block and key-schedule rules of the same run")
     chk.assume("input lengths and splits of the mode / feeder scenarios are enumerated (listed in the evidence); contents, keys and IVs are universally quantified")
